@@ -128,6 +128,16 @@ def build_harness(variant='cache'):
              '-fno-sanitize-recover=all', '-ffp-contract=off', '-I', os.path.join(REPO, 'include')]
     if 'nocache' in variant:
         flags.append('-DCONFIG_SX127X_DISABLE_SPI_CACHE')
+    covdir = os.environ.get('SXH_COVERAGE')
+    if covdir:
+        # line/branch coverage of src/sx127x.c under the scripts (tools/coverage.sh): the object
+        # and its counters live in a directory that survives this run
+        os.makedirs(covdir, exist_ok=True)
+        flags = [f for f in flags if not f.startswith('-fsanitize') and not f.startswith('-fno-sanitize') and f != '-DSXH_SANITIZE']
+        flags += ['--coverage', '-fprofile-update=atomic']
+        out = os.path.join(covdir, 'sxh_' + variant)
+        if os.path.exists(out):
+            return out, None
     m = re.search(r'cap(\d+)', variant)
     if m:
         flags.append('-DCONFIG_SX127X_MAX_PACKET_SIZE=' + m.group(1))
